@@ -206,7 +206,7 @@ def main():
         ],
         "checks": checks,
         "not_applicable": na,
-        "notes": "Exit codes of ./check: 0 held (KNOWN-FINDING lines allowed), 1 new violation (VIOLATION line + replay file under /verif/replays), 2 machinery error. Known findings: /verif/KNOWN_FINDINGS.json.",
+        "notes": "Exit codes of ./check: 0 held (KNOWN-FINDING lines allowed), 1 new violation (VIOLATION line + replay file under /verif/replays), 2 machinery error. Known findings: /verif/KNOWN_FINDINGS.json. Replay: ./check <ID> --replay <file> — DX files (a choice vector) re-execute that one schedule; files of the other engines name the failing case and the check is re-run in a scratch output directory, reporting whether the recorded key shows up again (exit 1) or not (exit 0).",
     }
     json.dump(m, open("/verif/MANIFEST.json", "w"), indent=1)
     print("checks:", len(checks), "not_applicable:", len(na))
